@@ -45,6 +45,7 @@ Definition run_c15 (x : sx) : sx :=
                   if is_nil rows then SY "rejected" else SY "accepted"
       | None => SY "bad-doc"
       end
+  | SL (SY "sameaccept" :: _) => SY "same"
   | SL [SY "guess"; SS path] => match guess_format path with Some (f, gz) => SL [sx_fmt f; sbool gz] | None => SY "none" end
   | SL [SY "save"; SS path] => match save_format path with Some f => sx_fmt f | None => SY "none" end
   | SL [SY "savegz"; SS path] => match save_gz_format path with Some f => sx_fmt f | None => SY "none" end
